@@ -141,6 +141,18 @@ def make_cases(ctx, tzrows):
                 days, sod = divmod(nn, 86400)
                 cases.append({"kind": "epoch", "days": days, "sod": sod, "frac": frac, "zoff": off, "s": s_,
                               "kw": {"languages": ["en"]} if rng.random() < 0.7 else {}, "settings": st, "api": "ddp", "probe": False})
+    # "all TIMEZONE values": every name of the tz database (Etc/GMT+5 means UTC-5; links; legacy names), each with an instant
+    for z in pytz.all_timezones:
+        for _ in range(1 if ctx.quick() else 4):
+            n = rng.choice([10 ** 9, 1234567890, 2 ** 31, rng.randint(10 ** 9, 10 ** 10 - 1), rng.randint(10 ** 9, 2 * 10 ** 9)])
+            sfx = rng.choice([0, 3, 6])
+            frac = 0 if sfx == 0 else (rng.randint(0, 999) * 1000 if sfx == 3 else rng.randint(0, 999999))
+            inst = pytz.utc.localize(datetime.datetime(1970, 1, 1) + datetime.timedelta(seconds=n))
+            off = int(inst.astimezone(pytz.timezone(z)).utcoffset().total_seconds())
+            s_ = str(n) + ("" if sfx == 0 else ("%03d" % (frac // 1000) if sfx == 3 else "%06d" % frac))
+            days, sod = divmod(n, 86400)
+            cases.append({"kind": "epoch", "days": days, "sod": sod, "frac": frac, "zoff": off, "s": s_,
+                          "kw": {"languages": ["en"]} if rng.random() < 0.7 else {}, "settings": {"TIMEZONE": z}, "api": "ddp", "probe": False})
     return cases
 
 
